@@ -9,6 +9,11 @@
 2. Every exported case is executed on the REAL plugins (real Start on selector strings with escaped dots,
    real Do on a real insaneJSON root, twice per instance) and the encoded result is compared as an ordered
    token sequence with the expectation.
+   WIDE cases (document contains the marker member): the marker is widened to 1 / 99 / 100 / 101 / 150 / 250
+   never-selected members junk_i (specification lemma WidthIndependent), document and expectation alike, and the
+   events go through ONE plugin instance in ascending and (second instance) descending width.
+   The spec mutant ~M_DepthBuffersDisjoint ("all depth buffers are windows of one backing array", Cap = 2) must be
+   rejected by TLC (FieldSelect_mutant_sharedbuf.cfg) and accepted with the mechanism switched on.
 3. A difference is a violation record {plugin, kind, as_swap_delete_model, event, ...}; records matching a
    known finding are KNOWN-FINDING, everything else is a VIOLATION.
 """
@@ -41,6 +46,17 @@ def run(ctx):
         if len(cases) < 100000:
             raise vlib.Infra("TLC exported only %d cases" % len(cases))
         res.out = ""
+        # mechanism check: the spec with one shared backing array for all depth buffers must violate Keep
+        # (so the small scope contains the situation that distinguishes it), the spec as the code is must not
+        mut = ctx.tlc("FieldSelect", "FieldSelect_mutant_sharedbuf.cfg", timeout=600, deadlock=False,
+                      name="mutant shared backing array (must be rejected)")
+        if mut.ok or mut.violated != "MutantInv":
+            raise vlib.Infra("spec mutant ~M_DepthBuffersDisjoint was not rejected by TLC (%s)\n%s" %
+                             (mut.violated, mut.out[-1500:]))
+        ctx.tlc_expect_ok("FieldSelect", "FieldSelect_mutant_sharedbuf.cfg", timeout=600, deadlock=False, count=False,
+                          overrides={"M_DepthBuffersDisjoint": "TRUE"}, name="same scope, buffers disjoint (must pass)")
+        ctx.extra["spec_mutants_rejected"] = ["M_DepthBuffersDisjoint=FALSE: " + " / ".join(
+            "%s" % st[1].get("cs", "")[:300] for st in mut.trace[-1:])]
         total = len(cases)
         ctx.extra["documents"] = docs
         ctx.rng.shuffle(cases)          # the whole exported scope is replayed in both tiers; the seed orders it
@@ -63,19 +79,25 @@ def run(ctx):
         if r["bad_lines"] or r["executed"] != len(cases):
             raise vlib.Infra("harness %s executed %d of %d cases (%d unreadable)" %
                              (name, r["executed"], len(cases), r["bad_lines"]))
-        per_plugin[name] = {k: r[k] for k in ("executed", "nontrivial", "reordering_predicted", "mismatch_counts")}
+        if r["predictor_disagrees"]:
+            raise vlib.Infra("harness %s: order predictor disagrees with the specification's transcription on %d cases" %
+                             (name, r["predictor_disagrees"]))
+        per_plugin[name] = {k: r[k] for k in ("executed", "events", "wide_cases", "nontrivial", "reordering_predicted",
+                                              "mismatch_counts")}
         for m in r["mismatches"] or []:
             recs.append(m)
     ctx.extra["per_plugin"] = per_plugin
     ctx.evaluations = sum(p["executed"] for p in per_plugin.values())
-    ctx.traces_validated = 2 * ctx.evaluations          # two Do calls per plugin instance, each compared
+    ctx.traces_validated = sum(p["events"] for p in per_plugin.values())     # every Do call is compared
     ctx.nontrivial = sum(p["nontrivial"] for p in per_plugin.values())
     ctx.exhaustive = not ctx.replay
     ctx.rule = ("case = (JSON object with unique keys over the names a, b, 'a.b', 'a.b.a', 'b.a', <= 5 members, depth <= 3, leaf kinds 1 / \"s\" / "
                 "null / [] / [{\"a\":1}] / {}; list of 1-3 selectors of length <= 3 over the same names, written with "
                 "escaped dots, short-first / long-first / with a repeat), enumerated exhaustively by TLC per family (%s "
                 "cases); every case is run on the real keep_fields and remove_fields (Start + 2 x Do) and the encoded "
-                "event compared token by token with the declarative expectation. Non-trivial = (case, plugin) pairs whose "
+                "event compared token by token with the declarative expectation; cases with the marker member are widened "
+                "to 1/99/100/101/150/250 junk members per marker and run through one instance in ascending and one in "
+                "descending width (12 events). Non-trivial = (case, plugin) pairs whose "
                 "expected result is neither the unchanged document nor {} (counted by the harness)."
                 % (total if total is not None else "replayed %d" % len(cases)))
     for c in cases[:3]:
